@@ -321,8 +321,10 @@ def run(ctx):
     proved, errors, gen_axioms = prove_catalogue(ctx, ser, entries, good, bad)
     ctx.obligations(len(entries), len(proved))
     ctx.coverage["axioms"] = sorted(set(ctx.coverage["axioms"]) | set(gen_axioms))
-    ctx.coverage["catalogue_homogeneous_proved"] = len([i for i in good if i in proved])
-    ctx.coverage["catalogue_inhomogeneous_proved"] = len([i for i in bad if i in proved])
+    ctx.coverage["equations_proved_homogeneous"] = len([i for i in good if i in proved])
+    ctx.coverage["equations_proved_inhomogeneous"] = len([i for i in real_bad if i in proved])
+    ctx.coverage["equations_outside_model_rejected_as_serialised"] = len([i for i in symexp if i in proved])
+    ctx.coverage["programs"] = nmod
     for i, err in errors.items():
         ctx.violation(f"C01:generated-lemma:{entries[i]['name']}", f"generated catalogue lemma did not compile: {err}",
             {"kind": "broken-proof", "item": entries[i]["name"], "theorem_or_tie": "build/C01/gen", "log": err}, found_input=False)
